@@ -63,7 +63,7 @@ func e2eRetransWorker(args []string) error {
 		return fmt.Errorf("%s", sum.Err)
 	}
 
-	cfg := agent.Cfg{N4Addr: p.N4Addr, Datapath: "bess", LogLevel: "error", ReadTimeout: 60, RespTimeout: fmt.Sprintf("%dms", p.TMs), MaxReqRetries: p.N,
+	cfg := agent.Cfg{N4Addr: p.N4Addr, Datapath: "bess", LogLevel: "warn", ReadTimeout: 60, RespTimeout: fmt.Sprintf("%dms", p.TMs), MaxReqRetries: p.N,
 		HBTimer: p.Mode != "connect", HBInterval: fmt.Sprintf("%dms", p.IMs), UEIPAlloc: rng.Intn(2) == 0, UEPool: "10.250.0.0/24", EndMarker: rng.Intn(2) == 0}
 	if p.Mode == "initiate" {
 		cfg.Peers = []string{p.PeerIP}
